@@ -6,4 +6,5 @@ def main : IO UInt32 :=
   runDriver (fun family params lines =>
     match family with
     | "c13" => C13.check params lines
+    | "c13e" => C13.checkEngine params lines
     | _ => { bad := [s!"unknown family {family}"] })
